@@ -16,7 +16,9 @@ NAMES = ["a", "b", "c", "x1", "_p", "data", "values", "items", "0", "12", "é", 
          # names that are NOT in Unicode normal form (NFC / NFKC would rewrite them) and a pair of
          # canonically equivalent but distinct names
          "\u212b_px", "\u00c5_px", "cafe\u0301", "caf\u00e9", "\u00b5_abs", "\u03bc_abs", "\ufb01le",
-         "\u2126", "\uff21"]
+         "\u2126", "\uff21",
+         # look like store internals or numbers with leading zeros
+         "007", "c", "0.0", "-1"]
 STRS = ["", "a", "hello world", "é名", "a.b/c", "it's \"q\"", "0", "None", "true", " lead", "x" * 40,
         "line\nbreak", "tab\t", "{}", "[1]", "1e5", "nan"]
 INTS = [0, 1, -1, 2, 7, 255, -128, 2 ** 31 - 1, -(2 ** 31), 2 ** 53, 2 ** 53 + 1, -(2 ** 62),
@@ -82,6 +84,12 @@ def nd_from_spec(s):
     elif order == "ro":
         arr = arr.copy()
         arr.setflags(write=False)
+    elif order == "neg" and arr.ndim >= 1:
+        arr = np.ascontiguousarray(arr[::-1])[::-1]          # negative stride along axis 0
+    elif order == "sliced_big" and arr.ndim >= 1 and arr.size:
+        base = np.zeros((arr.shape[0] + 3,) + arr.shape[1:], dtype=arr.dtype)   # view into a larger base
+        base[2:2 + arr.shape[0]] = arr
+        arr = base[2:2 + arr.shape[0]]
     return arr
 
 
@@ -609,7 +617,7 @@ def gen_nd(rng, opts, big=False):
         s = {"k": "nd", "dtype": dt, "shape": shape, "fill": rng.randrange(1000), "special": False}
         return s
     shape = list(rng.pick(SHAPES))
-    order = rng.weighted([("C", 6), ("F", 2), ("strided", 1), ("ro", 1)])
+    order = rng.weighted([("C", 6), ("F", 2), ("strided", 1), ("ro", 1), ("neg", 0.7), ("sliced_big", 0.7)])
     return {"k": "nd", "dtype": dt, "shape": shape, "fill": rng.randrange(1000), "order": order}
 
 
